@@ -196,6 +196,62 @@ def check_shells(case):
 
 
 # ------------------------------------------------------------------------------------------------
+# sub 'stream': ONE OrbitalRotator object serves a long stream of different rotations (the object is shared by all
+# projections / operations / local frames of a calculation); every matrix it hands out must still be the right one
+
+stream_case = st.fixed_dictionaries(dict(
+    symbol=st.sampled_from(["p", "d", "s;p", "p;d", "d;p;s"]), n=st.sampled_from([40, 150, 150, 300]),
+    improper=st.booleans(), rs=st.integers(0, 2 ** 32)))
+
+
+def check_stream(case):
+    from wannierberri.symmetry.orbitals import OrbitalRotator
+    orbref.selfcheck()
+    symbol = case["symbol"]
+    nfun = orbref.num_orb(symbol)
+    rng = rng_of(case["rs"])
+    Rs = [np.eye(3)]
+    while len(Rs) < case["n"]:
+        R = orbref.rot_euler([float(a) for a in rng.uniform(0, 2 * np.pi, size=3)])
+        if case["improper"] and rng.uniform() < 0.5:
+            R = -R
+        if min(maxdiff(R, Q) for Q in Rs) < CACHE_SEP:      # keep the stream outside the documented cache tolerance
+            continue
+        Rs.append(R)
+    rot = OrbitalRotator()
+    pts = orbref.sample_points(rng, 12)
+    Ds = []
+    for i, R in enumerate(Rs):
+        D = check_matrix_shape(np.array(rot(symbol, rot_cart=R.copy()), copy=True), nfun, f"D(#{i})")
+        e = maxdiff(D @ D.T, np.eye(nfun))
+        if e > TOL:
+            raise Violation("orthogonality", f"{symbol}: rotation #{i} of the stream: |D D^T - 1| = {e:.2e}")
+        e = orbref.transform_defect(symbol, D, R, pts, None, None)
+        if e > TOL:
+            raise Violation("transformation-law", f"{symbol}: rotation #{i} of a stream through one rotator object: "
+                                                  f"max|phi_j(R^-1 r) - sum_i phi_i(r) D_ij| = {e:.2e}")
+        Ds.append(D)
+    if maxdiff(Ds[0], np.eye(nfun)) > TOL:
+        raise Violation("identity", f"{symbol}: D(identity) differs from 1")
+    # products of members of the stream (new rotations for the object) and repeated requests for earlier members
+    for _ in range(6):
+        i, j = (int(v) for v in rng.integers(1, len(Rs), size=2))
+        Rij = Rs[i] @ Rs[j]
+        if min(maxdiff(Rij, Q) for Q in Rs) < CACHE_SEP:
+            continue
+        D = check_matrix_shape(np.array(rot(symbol, rot_cart=Rij.copy()), copy=True), nfun, "D(product)")
+        e = maxdiff(D, Ds[i] @ Ds[j])
+        if e > TOL:
+            raise Violation("composition", f"{symbol}: |D(g{i} g{j}) - D(g{i}) D(g{j})| = {e:.2e} late in a stream")
+    for i in (0, 1, len(Rs) // 2, len(Rs) - 1):
+        D = np.array(rot(symbol, rot_cart=Rs[i].copy()), copy=True)
+        if maxdiff(D, Ds[i]) > TOL:
+            raise Violation("repeat-call", f"{symbol}: rotation #{i} requested again at the end of the stream differs by "
+                                           f"{maxdiff(D, Ds[i]):.2e}")
+    return ok(len(Rs) >= 150, f"n={len(Rs)}", symbol, "improper" if case["improper"] else "proper-only")
+
+
+# ------------------------------------------------------------------------------------------------
 # sub 'hybrids'
 
 HYB_CLASS = {"sp": "x", "p2": "x", "sp2": "z", "pxy": "z", "pz": "z", "sp3": "any", "sp3d2": "cubic", "t2g": "cubic",
@@ -401,6 +457,7 @@ def check_dwann(case):
             if D.num_points != npnt or D.num_wann != npnt * nso:
                 raise Violation("dwann-size", f"{o}: num_points {D.num_points} (expected {npnt}), num_wann {D.num_wann}")
             all_inv = True
+            held = []
             for isym, symop in enumerate(sg.symmetries):
                 rot_red = np.array(symop.rotation, dtype=float)
                 trans = np.array(symop.translation, dtype=float)
@@ -411,6 +468,7 @@ def check_dwann(case):
                 M = D.get_on_points(k.copy(), k1 + G, isym)
                 if M.shape != (npnt * nso, npnt * nso):
                     raise Violation("dwann-size", f"matrix shape {M.shape}")
+                held.append((isym, M, np.array(M, copy=True)))      # the matrices of all operations are kept by the caller
                 sym_inv = True
                 for ip in range(npnt):
                     q = rot_red @ positions[ip] + trans
@@ -455,6 +513,10 @@ def check_dwann(case):
                     if e > TOL:
                         raise Violation("dwann-unitary", f"{o}: op {isym}: |D^+ D - 1| = {e:.2e}")
                 all_inv = all_inv and sym_inv
+            for isym, M, M0 in held:
+                if not np.array_equal(M, M0):
+                    raise Violation("dwann-result-overwritten", f"{o}: the matrix returned for operation {isym} was changed by "
+                                                                f"later calls on the same object (max change {maxdiff(M, M0):.2e})")
             lmax = max([orbref.L_OF.get(o, 0)] + [2 if o in ("sp3d2", "t2g", "eg") else 0])
             nontrivial = nontrivial or any_improper or lmax >= 2 or hyb
             labels += [f"orb={o}", f"sites={min(npnt, 4)}{'+' if npnt > 4 else ''}",
@@ -467,5 +529,6 @@ def check_dwann(case):
 SUBS = [
     Sub("shells", shells_case(), check_shells, quick=40, thorough=2000, budget_quick=45, budget_thorough=500),
     Sub("hybrids", hybrids_case(), check_hybrids, quick=56, thorough=3200, budget_quick=30, budget_thorough=300),
+    Sub("stream", stream_case, check_stream, quick=16, thorough=200, budget_quick=45, budget_thorough=400, per_shard_min=1),
     Sub("dwann", dwann_case(), check_dwann, quick=32, thorough=1400, budget_quick=45, budget_thorough=500),
 ]
